@@ -48,6 +48,9 @@ def cases(tier, seed):
             yield {'served': served, 'sup': sup, 'n': 34}
             for a in range(3):
                 yield {'served': served, 'sup': sup, 'n': 1, 'a1': a, 'pre_scu': True}
+                # the supported transfer syntaxes were assigned after the entity had been constructed (with other ones)
+                yield {'served': served, 'sup': sup, 'n': 1, 'a1': a, 'late_ts': True}
+            yield {'served': served, 'sup': sup, 'n': 2, 'a1': sup % 3, 'l1': sup % 10, 'late_ts': True}
 
 
 def _requests(case, thorough_lists):
@@ -83,7 +86,11 @@ def run_case(case):
     served = [x for i, x in enumerate((A, B)) if case['served'] >> i & 1]
     sup = [t for i, t in enumerate(TS) if case['sup'] >> i & 1]
     svcs = {s: assoc.Recorder('svc-' + s, [s]) for s in served}
-    ae = assoc.make_ae('SCP', sup, 65536, [])
+    if case.get('late_ts'):
+        ae = assoc.make_ae('SCP', [t for t in TS if t not in sup] or None, 65536, [])
+        ae.supported_ts = frozenset(sup)
+    else:
+        ae = assoc.make_ae('SCP', sup, 65536, [])
     if case.get('pre_scu'):
         # the same classes (and an unserved one) were configured as SCU first
         ae.add_scu(assoc.Recorder('as-scu', [A, B, U]))
@@ -174,11 +181,43 @@ def run_case(case):
                 if outcome != 'not-supported' or calls:
                     viol.append((sigb + 'dispatch-unaccepted', 'message on context %d that was not accepted: outcome %s, service calls %r (%s)'
                                  % (cid, outcome, calls, where)))
+        # several messages through ONE run of the dispatch loop: every order of two accepted contexts, and an accepted one
+        # followed by one that was not accepted (same SOP class) - the loop must not carry anything over from message to message
+        ab_of = dict((c[0], c[1]) for c in ctxs)
+        acc_ids = [c[0] for c in ctxs if c[0] in expected_accept]
+        seqs = [list(p) for p in itertools.permutations(acc_ids, 2)] + [[a_, a_] for a_ in acc_ids[:1]]
+        seqs += [[g, b] for g in acc_ids for b in [c[0] for c in ctxs if c[0] not in expected_accept] + [77]]
+        for seq in seqs:
+            for s in svcs.values():
+                s.calls = []
+            acc.dul.inbox.clear()
+            for cid in seq:
+                cls_uid = ab_of.get(cid, ab_of[seq[0]])
+                if cid not in expected_accept:
+                    cls_uid = ab_of[seq[0]]          # a message of the class just served, on a context that was not accepted
+                acc.dul.inbox.append((msggen.make('CEchoRQMessage', sop_class=cls_uid), cid))
+            acc.is_killed = False
+            try:
+                acc._loop()
+                outcome = 'returned'
+            except exceptions.ClassNotSupportedError:
+                outcome = 'not-supported'
+            except exceptions.DCMTimeoutError:
+                outcome = 'served'
+            except Exception as exc:
+                outcome = 'raised %r' % (exc,)
+            calls = [tuple(map(str, c[1])) for s in svcs.values() for c in s.calls]
+            good_ids = [cid for cid in seq if cid in expected_accept]
+            exp_calls = [tuple(map(str, asceprovider.PContextDef(cid, expected_accept[cid][0], expected_accept[cid][1]))) for cid in good_ids]
+            exp_out = 'served' if len(good_ids) == len(seq) else 'not-supported'
+            if outcome != exp_out or sorted(calls) != sorted(exp_calls) or (len(set(expected_accept[c][0] for c in good_ids)) == 1 and calls != exp_calls):
+                viol.append((sigb + 'dispatch-sequence', 'messages on contexts %r in one run of the dispatch loop: outcome %s, services called with %r, '
+                             'expected %s with %r (%s)' % (seq, outcome, calls, exp_out, exp_calls, where)))
         if len(viol) > 20:
             break
         last = req
     return {'viol': viol[:20], 'case': dict(case, req=[list(r) for r in last]) if viol and nreq else (case if viol else None),
-            'key': (case['served'], case['sup'], case['n'], case.get('a1'), case.get('l1'), case.get('pre_scu')),
+            'key': (case['served'], case['sup'], case['n'], case.get('a1'), case.get('l1'), case.get('pre_scu'), case.get('late_ts')),
             'count': {'accept_calls': nreq},
             'sample': {'served': served, 'supported': sup, 'request': ctxs} if case['n'] == 2 and case['sup'] == 5 and case['served'] == 3 and case['a1'] == 0 and case['l1'] == 4 else None}
 
